@@ -479,6 +479,10 @@ RULES = [
 ]
 
 
+from . import shared
+RULES = RULES + shared.bundle('C01', ['density', 'limits', 'centre', 'unit-sum', 'relative'], ['details', 'kernel', 'kerneldll', 'direct_model', 'weights'])
+
+
 def run(tier="quick", replay=None):
     return run_check(
         "C01", RULES, tier=tier, replay=replay,
